@@ -16,5 +16,7 @@ MCGlobPool == { [form |-> "ext", arg |-> "py"], [form |-> "ext", arg |-> "rs"],
                 [form |-> "exact", arg |-> P(<<"b", "b">>, "g.py", "py")],
                 [form |-> "dir", arg |-> <<".hid">>], [form |-> "exact", arg |-> P(<<".hid">>, "h.py", "py")],
                 \* globs that match a directory's own path but none of the files in it
-                [form |-> "name", arg |-> "pkg.py"], [form |-> "exactdir", arg |-> <<"src">>] }
+                [form |-> "name", arg |-> "pkg.py"], [form |-> "exactdir", arg |-> <<"src">>],
+                \* an exact path WITHOUT a directory part: the root-level file only, not its namesakes further down
+                [form |-> "exact", arg |-> P(<<>>, "f.py", "py")] }
 =============================================================================
